@@ -17,19 +17,29 @@ def driver_args(tier, seed, phase):
     return []
 
 
-RULE = ("catalogue (fills around the capacity of 18 configured sizes from -5 to 2000, hand-written boundary scripts: "
-        "expired Store, overwrite, flush, sweep exactly at / one second after an expiry, 17th key of a shard, overwrite "
-        "in a full shard) + seeded sequential scripts of Store/Get/Flush/Len/Range/gc over keys colliding in one shard "
-        "with the evicted keys observed by Range, + concurrent histories of 2-4 goroutines (12-36 calls, 2-3 keys or a "
-        "shard-overfilling key set) ordered by a global atomic counter, + Len sampled under concurrent writers; "
-        "a case is non-trivial when the size is below 1024 or not a multiple of 64, a Store evicted a key, or two calls "
-        "of different goroutines on the same key overlap in time; distinct = distinct Gallina literal")
+RULE = ("catalogue (fills around the capacity of 18 configured sizes from -5 to 2000; for each of them the script 'fill beyond "
+        "capacity, flush, fill again, flush, fill, sweep everything, fill, sweep nothing, close the cleaner, fill, flush, fill' with "
+        "Len after every step; hand-written boundary scripts: expired Store, overwrite, flush, sweep exactly at / one second after "
+        "an expiry, 17th key of a shard, overwrite in a full shard; a lookup parked at the schedule point cache.get.loaded while "
+        "the entry is swept / flushed / overwritten; expiry 40 ms ahead: store, wait until the clock has passed it without a sweep, "
+        "lookup must miss; expiry 3 s ahead with lookups before and after) + seeded sequential scripts of "
+        "Store/Get/Flush/Len/Range/gc over keys colliding in one shard with the evicted keys observed by Range, + seeded fill "
+        "scripts where Flush / gc / Close at arbitrary points precede long runs of distinct keys around and beyond the capacity, "
+        "+ seeded expiry-around-now lookups (1-6 keys, near and far expiries, repeated lookups), + concurrent histories of 2-4 "
+        "goroutines (12-36 calls, 2-3 keys or a shard-overfilling key set) ordered by a global atomic counter, + Len sampled under "
+        "concurrent writers, with and without a concurrent flusher/sweeper and an overfill after the last Flush; "
+        "a case is non-trivial when the size is below 1024 or not a multiple of 64, a Store evicted a key, a fill script contains "
+        "Flush/gc/Close, time passes an expiry, or two calls of different goroutines on the same key overlap in time; "
+        "distinct = distinct Gallina literal")
 ASSUMPTIONS = [
     "each shard method is one atomic step: justified by the lock table regenerated from the source "
     "(c11_lock_table_sound + c11_lock_discipline) and sync.RWMutex behaving as writers-exclusive/readers-shared",
     "key.Sum() only selects the shard (the theorems hold for every hash function); Go map get/set/delete/len/range "
     "behave as a finite map, range visiting each remaining key once in an arbitrary order",
-    "the clock is monotone (time.Now); expiries in the differential run are at least one hour away from the wall clock",
+    "the clock is monotone (time.Now); in the differential run an expiry is either at least an hour away from the wall clock, "
+    "or seconds away with every clock reading at least two seconds off it (case dropped otherwise), or milliseconds ahead with "
+    "the Stores verified to have happened before it and the lookups started only after the clock was seen past it "
+    "(waiting longer cannot change the verdict)",
     "the global atomic counter of the driver orders invocations and responses consistently with real time",
 ]
 TRUSTED_BASE = [
